@@ -43,6 +43,7 @@ Variable p_kill_head : list eff.   (* _kill_and_reroute before it calls reroute_
 Variable p_finish_ok : list eff.   (* set_invocation_result *)
 Variable p_finish_err : list eff.  (* set_invocation_exception *)
 Variable pop_before_claim : bool.  (* get_additional_invocations_to_run pops the message before it writes any status *)
+Variable recovery_continues : bool. (* a recovery run that loses the race for ANOTHER invocation still reroutes the ones it has marked *)
 Variable poll_exhausted : bool.    (* every runner runs the poll generator to its end (the reroute of what a poll deferred comes after its last yield) *)
 
 (* the message is popped when the poll role starts (pop, then the status read that decides the role); when the source
@@ -59,8 +60,8 @@ Definition prog_of (r : role) : list eff :=
   | RClaimSkip => []
   | RPollRaises => []
   | RKill => p_kill_head ++ p_reroute
-  | RRecPending => [ETrans PENDING_RECOVERY] ++ p_reroute
-  | RRecRunning => [ETrans RUNNING_RECOVERY] ++ p_reroute
+  | RRecPending => [ETrans PENDING_RECOVERY] ++ (if recovery_continues then p_reroute else [])
+  | RRecRunning => [ETrans RUNNING_RECOVERY] ++ (if recovery_continues then p_reroute else [])
   end.
 
 (* may process `a` start role r now? *)
